@@ -12,7 +12,7 @@ RULE = ("each base case (fuse/fuse_os/fuse_ss x 4 operators, proj, umax, discoun
         "steered to operands on which a cancelling binary32 evaluation of the joint uncertainty is visibly wrong) is run in every container family {[V;N], MArr1, MArrD1 usize, MArrD1 newtype} x {Opinion, OpinionRef} x "
         "{owned, borrowed tables} x {fuse, fuse_assign} x {f32, f64}; cross-case: all variants of one precision must agree within 4 ulps "
         "(identical bits are counted), f32 vs f64 within single-precision accuracy (64*2^-23; merge excluded as the property says); "
-        "fuse_os must equal fuse with the shared left base rate and fuse_ss the belief part; ECm on bare simplexes must be refused")
+        "fuse_os must equal fuse with the shared left base rate and fuse_ss the belief part; ECm on bare simplexes must be refused; plus a deliberate guard lattice of the fusion overloads (4 operators x {vacuous, dogmatic}^2 operands with independent base rates, value and in-place forms, all families and styles); the relations are also evaluated on the search stream that runs after a broken tie")
 EXHAUSTIVE = {}
 nontrivial = default_nontrivial
 CROSS_GROUPS = [0]
@@ -119,8 +119,22 @@ def cases(rng, tier):
     CROSS_GROUPS[0] = 0
     out = []
     N = 220 if tier == "quick" else 4000
-    for t in range(N + N // 6):
-        vs, info = small_rate_case(rng) if t >= N else base_case(rng)
+    # guard lattice of the fusion overloads, drawn deliberately (seeded variant C16_r5A: an early return of fuse_assign that is wrong
+    # only when BOTH operands are vacuous and carry different base rates): every operator x {vacuous, dogmatic}^2, value and in-place forms
+    lattice = []
+    for fo in range(4):
+        for k1 in ("vac", "dog"):
+            for k2 in ("vac", "dog"):
+                n = rng.choice([2, 3, 4])
+                den = rng.choice([4, 8])
+                w1 = G.rand_opinion(rng, n, den, k1)
+                w2 = G.rand_opinion(rng, n, den, k2)
+                lattice.append((variants_1d("fuse", [n, fo, 0], w1 + w2, extra=("", "asg")), ("fuse", n)))
+    for t in range(N + N // 6 + len(lattice)):
+        if t >= N + N // 6:
+            vs, info = lattice[t - N - N // 6]
+        else:
+            vs, info = small_rate_case(rng) if t >= N else base_case(rng)
         gid = CROSS_GROUPS[0]; CROSS_GROUPS[0] += 1
         for fmt in ("f64", "f32"):
             for (op, var, ints, scal) in vs:
